@@ -738,3 +738,11 @@ VARIANTS += [
     V('C20-M21', 'M', ('C20',), CX, 'SpawnProcess._run_logger', r'logger = logging\.getLogger\(record\.name\)\n(\s+)if record\.levelno >= logger\.getEffectiveLevel\(\):\n(\s+)logger\.handle\(record\)', r'record_logger = logging.getLogger(record.name)\n\1if record.levelno >= logger.getEffectiveLevel():\n\2record_logger.handle(record)', ('C20-3',), note='seeded C20-r2m2 shape'),
     V('C20-E20', 'E', ALL, CX, 'SpawnProcess._run_logger', r'\blogger\b', 'record_logger', count=0, note='consistent rename of the local'),
 ]
+
+VARIANTS += [
+    V('C06-M24', 'M', ('C06',), SV, 'Server.call', r'fut = self\._enqueue\(x, timeout, backpressure\)', 'timeout = timeout or 60\n        fut = self._enqueue(x, timeout, backpressure)', ('C06-9',)),
+    V('C17-M22', 'M', ('C17',), QU, 'ResponsiveQueue._get_put', r'time_total = 3600 \* 24 if timeout is None else timeout', 'time_total = timeout or 3600 * 24', ('C17-5',)),
+    V('C12-M23', 'M', ('C12',), TH, 'Thread.result', r'super\(\)\.join\(timeout\)', 'super().join(timeout or None)', ('C12-8',)),
+    V('C18-M20', 'M', ('C18',), SO, 'read_record', r'asyncio\.wait_for\(reader\.readuntil\(b.\\n.\), timeout\)', "asyncio.wait_for(reader.readuntil(b'\\\\n'), timeout or 0.1)", ('C18-10',)),
+    V('C06-E22', 'E', ALL, SV, 'Server.call', r'fut = self\._enqueue\(x, timeout, backpressure\)', 'if timeout is None:\n            timeout = 60\n        fut = self._enqueue(x, timeout, backpressure)'),
+]
